@@ -210,6 +210,42 @@ func Drivers(nthreads int) []Driver {
 				*out = append(*out, obsList(l, n))
 			}}
 		}},
+		{"17 user-supplied language tables that lack whole sections and single codes; custom, number and string issues formatted through them", nthreads, func() *Shared {
+			old := conf.IssueFormatter
+			// fresh tables per setup (a program's own tables, not the shipped ones): one has only the string section,
+			// the other lacks single codes
+			onlyStrings := zconst.LangMap{zconst.TypeString: map[zconst.ZogIssueCode]string{"min": "muy corto ({{min}})", "default": "cadena mala"}}
+			sparse := zconst.LangMap{
+				zconst.TypeString: map[zconst.ZogIssueCode]string{"default": "bad text"},
+				zconst.TypeNumber: map[zconst.ZogIssueCode]string{"gt": "too small ({{gt}})"},
+			}
+			i18n.SetLanguagesErrsMap(map[string]zconst.LangMap{"xs": onlyStrings, "xp": sparse}, "xs")
+			viaOpt := z.WithIssueFormatter(conf.NewDefaultFormatter(sparse))
+			s := z.Struct(z.Schema{
+				"name": z.String().Min(5).Required(),
+				"age":  z.Int().GT(18),
+				"id":   z.CustomFunc(func(p *string, c z.Ctx) bool { return len(*p) == 4 }),
+			})
+			type D struct {
+				Name string
+				Age  int
+				Id   string
+			}
+			return &Shared{Cleanup: func() { conf.IssueFormatter = old }, Thread: func(i int, out *[]string, yield func()) {
+				var d D
+				in := map[string]any{"name": "ab", "age": 3, "id": "toolong"}
+				var m z.ZogIssueMap
+				switch i % 3 {
+				case 0:
+					m = s.Parse(in, &d, z.WithCtxValue("lang", "xs"))
+				case 1:
+					m = s.Parse(in, &d, z.WithCtxValue("lang", "xp"))
+				default:
+					m = s.Parse(in, &d, viaOpt)
+				}
+				*out = append(*out, obsMap(m, d))
+			}}
+		}},
 		{"13 tests carrying parameter names of their own (Params option), never seen before in this process", nthreads, func() *Shared {
 			freshNames++
 			pa := map[string]any{"min": 5, fmt.Sprintf("unit_%d_a", freshNames): "chars"}
